@@ -516,6 +516,36 @@ Theorem C16_inbound_qos0_idle : forall w h rl body t topic r dp props payload,
     Idle w'.
 Proof. exact inbound_qos0_idle. Qed.
 
+(* ---- histories that interleave the application's requests with inbound QoS 0 messages (`Mixed.v`): an event is a request
+   (one complete exchange, `History.exchange`) or the arrival of one whole PUBLISH from the broker (`Run.feed`, no delay)
+   followed by one poll().  From idle, for every list of events of any length and in any order: every request completes with
+   its identifier released, every message is returned by its poll() exactly as decoded with nothing written to the wire, and
+   the connection ends idle at the same instant. ---- *)
+From Minimq Require Import Mixed.
+Theorem C16_message_idle : forall w pkt,
+  IdleQ w -> msg_ok w pkt ->
+  exists w2, estep w (EvMsg pkt) w2 /\ IdleQ w2 /\ w_now w2 = w_now w /\
+    ob_cap (s_ob (w_sess w2)) = ob_cap (s_ob (w_sess w)).
+Proof. exact message_idle. Qed.
+
+Theorem C16_mixed_history_completes : forall es w,
+  IdleQ w -> wanted_events (ob_cap (s_ob (w_sess w))) es w ->
+  exists w', mixed_history w es w' /\ IdleQ w' /\ w_now w' = w_now w.
+Proof. exact mixed_history_completes. Qed.
+
+(* what a step of such a history is, spelled out (the definitions are in Mixed.v; these pin them) *)
+Theorem C16_estep_msg : forall w pkt w2, estep w (EvMsg pkt) w2 ->
+  exists p, from_buffer pkt = Some p /\ op_poll FUEL (feed w 0 pkt) = (w2, ODone (Some p)) /\ w_wire w2 = w_wire w.
+Proof. exact estep_msg_inv. Qed.
+Theorem C16_estep_req : forall w q w2, estep w (EvReq q) w2 ->
+  exists op, exchange w q op w2 /\
+    has_retained (s_ob (w_sess w2)) (op_pid op) = false /\ has_pending_release (s_ob (w_sess w2)) (op_pid op) = false.
+Proof. exact estep_req_inv. Qed.
+
+Theorem C16_mixed_events_hyps_met :
+  IdleQ ex_b1 /\ wanted_events (ob_cap (s_ob (w_sess ex_b1))) [EvMsg ex_msg; EvReq ex_req_sub] ex_b1.
+Proof. exact mixed_events_hyps_met. Qed.
+
 Theorem C16_connect_establishes_idle : forall w off bs,
   w_script w = [] -> w_broker w = 2 -> w_inq w = [] -> w_txbuf w = [] -> w_last_arrival w <= w_now w ->
   6 <= rcap (s_reader (w_sess w)) ->
@@ -607,3 +637,8 @@ Print Assumptions C16_connect_establishes_idle.
 Print Assumptions C16_connect_then_history_completes.
 Print Assumptions C16_connect_then_history_hyps_met.
 Print Assumptions C16_inbound_qos0_idle.
+Print Assumptions C16_message_idle.
+Print Assumptions C16_mixed_history_completes.
+Print Assumptions C16_estep_msg.
+Print Assumptions C16_estep_req.
+Print Assumptions C16_mixed_events_hyps_met.
